@@ -123,6 +123,8 @@ def family(tier):
     add("mcancel", L("ab", ["(macro-cancel-on-press x 2 y)", "z"]), "ab", 6)
     # (dynamic_macro_record_state: a recording grows without bound, so it has no exhaustive instance here; the conjunct
     # is exercised on the real code by the "dynmacro" configuration of RICH and by C19's bounded instances)
+    # scroll_state / hscroll_state (Kanata.tla HandleScrolling): events every `interval` ticks while the key is held
+    add("mwheel", L("ab", ["(mwheel-up 3 120)", "(multi z (mwheel-left 2 10))"]), "ab", 3)
     # caps_word (Kanata.tla CwStep): the remaining ticks count down while the state is active; it ends by timeout
     add("capsword", L("abc", ["(caps-word-custom 4 (b) ())", "b", "z"]), "abc", 4)
     # live_reload_requested (stays requested in the stepper: never blocks again)
